@@ -1,5 +1,6 @@
 import Whv.Lemmas.ProcC01
 import Whv.Lemmas.Confluence
+import Whv.Lemmas.Frame
 /-!
 # C02 — a VAA is published exactly when the node saw the message and quorum signed
 
@@ -702,5 +703,70 @@ example : acceptedSigners O1 g1 m1 es1 = g1.keys := by decide
 example : Published O1 cfg1 s1 es1 :=
   (published_iff_quorum window1 events1 loopback1).2 ⟨⟨0, by simp [es1]⟩, by decide⟩
 end Example
+
+/-! ## Interleaving with traffic about other messages (frame theorem, `Whv/Lemmas/Frame.lean`) -/
+
+/-- What the node broadcast as complete at the steps that handled events about `m`, inside a longer run. -/
+def PublishedAtWindowSteps (O : Oracle) (g : GSet) (m : Msg) (es : List Event) (outs : List (List Out)) (b : Bytes) : Prop :=
+  ∃ os ∈ pick (digestOfMsg O g m) m es outs, Out.vaa b ∈ os
+
+/-- **Interleaving with other traffic.** Let `es` be *any* event list in which each event is about `m` (the message, observations
+for its digest) or about something else (observations for other digests; chain messages, injections, inbound VAAs with another
+digest and another message id — valid, forged, duplicated, in any number and order). If the run does not panic, then at the steps
+that handle events about `m` the node publishes exactly what it publishes when those events are delivered alone: other traffic can
+neither cause, prevent, delay nor alter the publication of `m`'s VAA. Together with `published_iff_quorum`, `published_shape`,
+`published_at_most_once` and `c02_confluence` (which speak about the events of `m` alone) this extends them to every such
+interleaving. -/
+theorem c02_other_traffic {O : Oracle} {cfg : Config} {g : GSet} {m : Msg} {s0 : PState}
+    (hsep : Sep (digestOfMsg O g m) (vaaOfMsg g.index m).body.id s0)
+    (es : List Event)
+    (hall : ∀ e ∈ es, isWin (digestOfMsg O g m) m e = true ∨ Foreign O (digestOfMsg O g m) (vaaOfMsg g.index m).body.id e)
+    (sf : PState) (outs : List (List Out)) (hrun : run O cfg s0 es = .ok (sf, outs)) (b : Bytes) :
+    PublishedAtWindowSteps O g m es outs b ↔ PublishedBytes O cfg s0 (es.filter (isWin (digestOfMsg O g m) m)) b := by
+  obtain ⟨sf', outs', hr', _, hp⟩ :=
+    run_frame O cfg (digestOfMsg O g m) (vaaOfMsg g.index m).body.id m (fun _ => rfl) (fun _ => rfl) es s0 s0 hall
+      (Same.refl ..) hsep sf outs hrun
+  unfold PublishedAtWindowSteps PublishedBytes
+  constructor
+  · rintro ⟨os, hos, hb⟩
+    exact ⟨sf', outs', hr', os, by rw [hp]; exact hos, hb⟩
+  · rintro ⟨sf2, outs2, hr2, os, hos, hb⟩
+    rw [hr'] at hr2
+    cases hr2
+    exact ⟨os, by rw [← hp]; exact hos, hb⟩
+
+/-- The events about `m` picked out of an interleaving are window events in the sense of the theorems above. -/
+theorem filter_isWin_windowEvents (O : Oracle) (g : GSet) (m : Msg) (es : List Event) :
+    WindowEvents O g m (es.filter (isWin (digestOfMsg O g m) m)) := by
+  intro e he
+  have := (List.mem_filter.1 he).2
+  exact (isWin_iff _ m e).1 this
+
+/-- … hence: in any interleaving with other traffic, starting in a window state, `m`'s VAA is published (at a step about `m`) iff
+the message and valid observations by a quorum of distinct members are among the events — whatever else is delivered in between. -/
+theorem c02_published_iff_quorum_any_traffic {O : Oracle} {cfg : Config} {g : GSet} {m : Msg} {s0 : PState}
+    (hW : Window O cfg g m s0) (hsep : Sep (digestOfMsg O g m) (vaaOfMsg g.index m).body.id s0) (es : List Event)
+    (hall : ∀ e ∈ es, isWin (digestOfMsg O g m) m e = true ∨ Foreign O (digestOfMsg O g m) (vaaOfMsg g.index m).body.id e)
+    (hlb : LoopbackAfterMessage O g m (es.filter (isWin (digestOfMsg O g m) m)))
+    (sf : PState) (outs : List (List Out)) (hrun : run O cfg s0 es = .ok (sf, outs)) :
+    (∃ b, PublishedAtWindowSteps O g m es outs b) ↔
+      (∃ now, Event.message m now ∈ es) ∧
+        quorum g.keys.length ≤ (acceptedSigners O g m (es.filter (isWin (digestOfMsg O g m) m))).length := by
+  have hiff := published_iff_quorum hW (filter_isWin_windowEvents O g m es) hlb
+  have hmem : (∃ now, Event.message m now ∈ es.filter (isWin (digestOfMsg O g m) m)) ↔ (∃ now, Event.message m now ∈ es) := by
+    constructor
+    · rintro ⟨now, h⟩; exact ⟨now, (List.mem_filter.1 h).1⟩
+    · rintro ⟨now, h⟩; exact ⟨now, List.mem_filter.2 ⟨h, by simp [isWin]⟩⟩
+  rw [← hmem, ← hiff]
+  unfold Published
+  constructor
+  · rintro ⟨b, hb⟩; exact ⟨b, (c02_other_traffic hsep es hall sf outs hrun b).1 hb⟩
+  · rintro ⟨b, hb⟩; exact ⟨b, (c02_other_traffic hsep es hall sf outs hrun b).2 hb⟩
+
+/-- Non-vacuity of `Sep`: the initial state (and any state without other aggregation entries) satisfies it. -/
+theorem sep_of_no_entries (d : Bytes) (k : VaaId) (s : PState) (h : s.agg = []) : Sep d k s := by
+  intro d' st v _ hl _
+  rw [h] at hl
+  simp at hl
 
 end Whv.C02
